@@ -28,8 +28,8 @@ for sid in sorted(os.listdir(src)):
         "id": sid, "property": m.get("property", sid[:3]), "summary": m.get("summary"), "files": m.get("files"),
         "needs_to_manifest": m.get("needs_to_manifest"), "demo_location": m.get("demo_location"),
         "demo_cmd": c.get("demo_cmd"),
-        "author": "independent sub-agent given only the property text and its own scratch worktree (second round: written after "
-                  "the checks of the first round existed, and never shown them)",
+        "author": "independent sub-agent given only the property text and its own scratch worktree (later round: written after "
+                  "checks of earlier rounds existed, and never shown them)",
         "confirmed_by_me": {
             "against_repo_commit": commit,
             "how": "bin/seed_confirm.py: scratch copy of /repo (rsync, no .git/target), demo placed at demo_location; (1) demo without patch, "
